@@ -7,7 +7,7 @@
    Directives used: ExtrOcamlBasic, ExtrOcamlString (which re-exports ExtrOcamlChar); none of our own. *)
 From Coq Require Import ExtrOcamlBasic ExtrOcamlString ZArith.
 From TF Require Import Lib.Base Model.Rebuild Model.CopyPath Model.PathSafe.
-From TF Require Model.Bencode Model.RebuildMeta.
+From TF Require Model.Bencode Model.RebuildMeta Model.RebuildRun.
 Definition wire_z (z : Z) : Z := Z.succ z.
 Definition wire_nat (n : nat) : nat := S n.
 Extraction Language OCaml.
@@ -15,4 +15,5 @@ Extraction "../ocaml/build/rebuild/extracted.ml" wire_z wire_nat
   map_pieces match_v1
   copypath_run fs_of_list lookup
   safe_comp check_parts_model resolve checked_target
-  RebuildMeta.metadata_of_bytes RebuildMeta.rebuild_v2 RebuildMeta.safe_b RebuildMeta.utf8_valid RebuildMeta.x_is_v2.
+  RebuildMeta.metadata_of_bytes RebuildMeta.rebuild_v2 RebuildMeta.safe_b RebuildMeta.utf8_valid RebuildMeta.x_is_v2
+  RebuildRun.parts_of RebuildRun.join_parts.
